@@ -12,8 +12,10 @@ import Driver.RecvPath
 import Driver.Prot
 import Driver.Tls
 import Driver.Adapter
+import Driver.Flow
 
 structure World where
+  flow : Drv.FlowW := {}
   adp : Drv.AdpW := {}
   tls : Drv.TlsW := {}
   prot : Drv.ProtW := {}
@@ -77,6 +79,9 @@ def step (w : World) (line : String) : World × String :=
     else if t.startsWith "adp." then
       let (s, o) := Drv.stepAdapter w.adp toks
       ({ w with adp := s }, o)
+    else if t.startsWith "flow." then
+      let (s, o) := Drv.stepFlow w.flow toks
+      ({ w with flow := s }, o)
     else (w, "bad-op")
 
 partial def loop (hin hout : IO.FS.Stream) (w : World) : IO Unit := do
